@@ -266,6 +266,26 @@ Section WithOracle.
                 (r, evs) :: run_ev s1 ec1 t
     end.
 
+  (* ---- several runs on ONE plug-in object and ONE EnsembleEvaluator ------------------------------
+     SciPyOptimizer.start() clears _cached_variables/_cached_function/_cached_gradient; the
+     NormalizedConstraints object (and EnsembleEvaluator._cache_for_gradient) is kept as it is. *)
+  Definition restart (s : st) : st := {| cx := None; cf := None; cg := None; nc := nc s; nj := nj s |}.
+
+  Fixpoint exec_ev (s : st) (ec : option nat) (ops : list op) : st * option nat :=
+    match ops with
+    | [] => (s, ec)
+    | o :: t => let '(s1, calls, _) := step s o in
+                let (ec1, _) := calc_all ec calls in exec_ev s1 ec1 t
+    end.
+
+  Fixpoint run_chain (s : st) (ec : option nat) (seqs : list (list op))
+    : list (list (ret * list (inv * evcall))) :=
+    match seqs with
+    | [] => []
+    | ops :: t => let s0 := restart s in
+                  run_ev s0 ec ops :: (let (s1, ec1) := exec_ev s0 ec ops in run_chain s1 ec1 t)
+    end.
+
   (* ---- the specification: the value of a request computed directly from the oracle ------------ *)
   Definition expected (o : op) : ret :=
     match o with
